@@ -78,6 +78,11 @@ CHECKS = {
    note="Trusted: Coq kernel/vm_compute; Model/PT.v, Model/Dyn.v; Python harness; public extension points of ParameterizedSystem. The propagator derivatives (user supplied or numerically differentiated) are a contract.",
    technique="Coq proof (finite-sum linear algebra, induction over the chain) + exact multilinearity correspondence + finite-difference search",
    design="3/C08"),
+ "C09": dict(
+   text="Theorems (Coq): the two mean-field drivers, modelled separately as they are coded (MeanFieldTempo: derivative call, network step, two Runge-Kutta stages; compute_dynamics_with_field: loop with the update leading into step s, then the derivative call, final update after the loop), evaluate the field equation of motion at the same (time, states, field) triples in the same order and return the same field sequence for every N, start time, dt, initial field and equation of motion, over any number type (methods_agree, induction over steps); the stage arguments are those of Heun's rule (heun_args); over the rationals the field is exact for equations linear in time, for every start time and step count (heun_exact_linear); the pre-repair 'one step late' stages are refuted. Tied to /repo bit-for-bit: every (time, step of the states, field) triple passed to field_eom and every field value of both drivers against the model on primitive floats; side-by-side search with 1-3 systems and state-dependent equations.",
+   note="Trusted: Coq kernel/vm_compute + primitive floats (Print Assumptions lists them; heun_exact_linear is closed); Model/MeanField.v; Python harness. System states are an oracle (TEMPO vs PT-TEMPO equality is C02).",
+   technique="Coq proof (induction over steps; field arithmetic on Q) + bit-exact call-trace correspondence on primitive floats",
+   design="3/C09"),
 }
 
 NOT_YET = {}
